@@ -530,6 +530,60 @@ def inverseBeforeBandFix (conds : CondTab α n m) (ax : Tab α n) (ay : Tab α m
     Simplex.normalized b u
 
 
+/-! after repairs e624e49 / 7c00713, before repair 9ec2d8b: `deduce_of` and `inverse` WITHOUT the clamp of the rounding
+    residue.  A belief mass whose exact value is 0 is computed as `p - a*u` with `p = a*u` exactly; in floating point the
+    difference is a residue down to about -2.5 eps, below the `-eps` the checked constructors accept. -/
+/-- `mul::deduce_of` after repairs e624e49 / 7c00713, before repair 9ec2d8b (no clamp of `u` / `b[y]` at zero) -/
+def deduceOfNoClamp (wx : Opinion α n) (conds : CondTab α n m) (ay : Tab α m) : Opinion α m :=
+  let condP := projections conds ay
+  let pyhx : Tab α m := Vector.ofFn fun y =>
+    Tab.sumIter (Vector.ofFn fun x : Fin n => wx.a[x] * (condP[x])[y])
+  let uyhx : α := Tab.reduceMin (Vector.ofFn fun y : Fin m =>
+    (pyhx[y] - Tab.reduceMin (Vector.ofFn fun x : Fin n => (conds[x]).b[y])) / ay[y])
+  let u := uyhx - Tab.sumIter (Vector.ofFn fun x : Fin n => (uyhx - (conds[x]).u) * wx.b[x])
+  let p := wx.projection
+  let b : Tab α m := Vector.ofFn fun y =>
+    Tab.sumIter (Vector.ofFn fun x : Fin n => p[x] * (condP[x])[y]) - ay[y] * u
+  Opinion.mk' (Simplex.normalized b u) ay
+
+/-- `InverseCondition::inverse` after repairs e624e49 / 7c00713, before repair 9ec2d8b (no clamp of `b[x]` at zero) -/
+def inverseNoClamp (conds : CondTab α n m) (ax : Tab α n) (ay : Tab α m) : CondTab α m n :=
+  let pyx : Vector (Tab α m) n := conds.map fun c => c.projection ay
+  let uyx : Tab α n := Vector.ofFn fun x => (conds[x]).maxUncertainty ay
+  let temp : Vector (Tab α n) m := Vector.ofFn fun y =>
+    let allZero := (List.finRange n).all fun x => isZero (pyx[x])[y]
+    if allZero then Vector.replicate n Scalar.one
+    else
+      let q := Tab.sumIter (Vector.ofFn fun x : Fin n => ax[x] * (pyx[x])[y])
+      Vector.ofFn fun x => (pyx[x])[y] / q
+  let pxy : Vector (Tab α n) m := Vector.ofFn fun y => Vector.ofFn fun x => (temp[y])[x] * ax[x]
+  let irrel : Tab α m := Vector.ofFn fun y =>
+    Scalar.one - Tab.reduceMax (Vector.ofFn fun x : Fin n => (pyx[x])[y])
+      + Tab.reduceMin (Vector.ofFn fun x : Fin n => (pyx[x])[y])
+  let maxUxy : Tab α m := Vector.ofFn fun y => Tab.reduceMin (temp[y])
+  let uyxSum := Tab.sumIter uyx
+  let weights : Tab α n :=
+    if Scalar.eq uyxSum Scalar.zero then Vector.replicate n Scalar.zero
+    else Vector.ofFn fun x => uyx[x] / uyxSum
+  let maxUyx : Tab α n := Vector.ofFn fun x =>
+    Tab.reduceL Scalar.min
+      (((List.finRange m).filter fun y => !isZero ay[y]).map fun y => (pyx[x])[y] / ay[y]) Scalar.one
+  let weightedU : Tab α n := Vector.ofFn fun x =>
+    let u := maxUyx[x]
+    if isZero u then Scalar.zero else weights[x] * uyx[x] / u
+  let wprop := Tab.sumIter weightedU
+  Vector.ofFn fun y =>
+    let u := maxUxy[y] * (wprop + irrel[y] - wprop * irrel[y])
+    let b : Tab α n := Vector.ofFn fun x => (pxy[y])[x] - u * ax[x]
+    Simplex.normalized b u
+
+/-- `Abduction::abduce_with` before repair 9ec2d8b -/
+def abduceWithNoClamp (wy : Simplex α m) (conds : CondTab α n m) (ax : Tab α n) (ay : Tab α m) :
+    Opinion α n :=
+  let inv := inverseNoClamp conds ax ay
+  deduceOfNoClamp (Opinion.mk' wy ay) inv ax
+
+
 /-! Product before fix (cells of zero base rate were divided through; a numerator that rounding or an inexactly
     normalised operand makes slightly negative then yields -inf, which wins the min) -/
 /-- the part shared by both product implementations: (b, u, a) before validation / normalisation -/
